@@ -480,6 +480,22 @@ class Check(Property):
                                          f"n={n} give {want}")
             if u._active_ctx.contexts:
                 v.append("C11 entry-forms probe: contexts left active")
+            # the enclosing context need not have a rule of its own: a context that only holds parameters (or only redefines a unit)
+            # still passes the value it was entered with on to the contexts enabled inside it
+            holder = pint.Context("holder11", defaults={"n": 1})
+            u.add_context(holder)
+            for enc_name in ("holder11",):
+                for dst, power in (("b11", 1), ("c11", 2)):
+                    for label, fn in forms({}).items():
+                        want = Fraction(2) * 3 * Fraction(4) ** power
+                        try:
+                            with u.context(enc_name, n=4):
+                                got = fn(dst)
+                        except Exception as exc:  # noqa: BLE001
+                            got = type(exc).__name__
+                        if got != want:
+                            v.append(f"C11 {label} inside the rule-less context {enc_name}(n=4): 2 a11 -> {dst} = {got}, with the inherited n=4 the "
+                                     f"rules give {want}")
             # a rule runs with the parameters of the context that OWNS it: an inner context with a colliding parameter name
             # (given by keyword) does not change what the outer context's rule computes, and vice versa
             pa = pint.Context("own_a", defaults={"n": 1})
